@@ -259,7 +259,7 @@ class C23(Prop):
         "Tied to the code on every run in Q (dyadic coordinates, float results within 1e-9 relative).")
     level_note = (
         "Proved about the models (refine_grid_1d: for all inputs the decoded output cells are the "
-        "children, C23_refine_1d_grid; its sign array is only tied). NOT proved: compute_geometry of the "
+        "children, C23_refine_1d_grid; its sign array is +1 exactly at first occurrences, C23_refine_1d_signs). NOT proved: compute_geometry of the "
         "new grids (C19) - that a prism cell's measure is base*|dz| is checked per case in the tie; "
         "the topology built by _extrude_1d/_extrude_2d (face-node/cell-face matrices, tags) is not "
         "modelled (validity of the grid is oracle-only); structured_refinement in 2-D/3-D "
